@@ -1016,6 +1016,10 @@ func main() {
 		{"cross, partial drain, refill across the next ring, drain", 0, []burst{{true, N + 4000}, {false, N + 3000}, {true, N + 10}, {false, 2000}, {true, 5}, {false, N}}},
 		{"closed ring drained with empty answers before the advance", 1, []burst{{true, N + 1}, {false, N}, {false, 1}, {false, 2}, {true, 1}, {false, 2}}},
 	}
+	for v := 0; v < 3; v++ { // the emptiness budget after idle polling, with enqueues in between (snapshots compare the threshold)
+		hvs = append(hvs, hv{"idle polls between enqueues: budget decays by one per poll, every enqueue refills it", v,
+			[]burst{{true, 1}, {false, 1}, {false, 30000 + 1000*v}, {true, 1}, {false, 1}, {false, 500}, {true, 2}, {false, 3}, {false, 7}, {true, 1}}})
+	}
 	if th {
 		for r := 0; r < 30; r++ {
 			var bs []burst
@@ -1157,6 +1161,51 @@ func main() {
 				map[string]interface{}{"P": P, "C": C, "per": per, "events": len(h)}})
 		}
 	}
+	// ---- idle polling then burst (idlepoll.go): the emptiness budget is polled down to its last unit, then the same rounds ----
+	nidle := 2 // per variant and kind
+	if th {
+		nidle = 12
+	}
+	totalPolls := 0
+	var budgets []int64
+	for variant := 0; variant < 3; variant++ {
+		for i := 0; i < nidle; i++ {
+			for kind := 0; kind < 2; kind++ {
+				q := newQ(variant, 6000)
+				clock = 0
+				split := (i+kind)%2 == 1
+				pre, polls, budget := idlePoll(q, rng, &clock, split)
+				totalPolls += polls
+				budgets = append(budgets, budget)
+				var h []ev
+				label := ""
+				if kind == 0 {
+					var parked bool
+					h, parked = scriptedNearEmpty(q, rng.Range(6, 14), rng, &clock)
+					if !parked {
+						notParked++
+					}
+					label = "idle-polling then parked enqueuer, tokens"
+				} else {
+					P, C := rng.Range(2, 4), rng.Range(1, 3)
+					h = tokenNearEmpty(q, P, C, 60/P, &clock)
+					label = "idle-polling then jitter, tokens"
+				}
+				for _, e := range h[:len(h)-1] {
+					if e.kind == 2 {
+						wrongEmpties++
+					}
+				}
+				h = append(pre, h...)
+				sort.Slice(h, func(a, b int) bool { return h[a].inv < h[b].inv })
+				light = append(light, pending{fmt.Sprintf("CHist true true %s\n %s", vhlib.Bool(twin(h, true, true)), histStr(h)),
+					fmt.Sprintf("concurrent/%s/%s", q.Name(), label), true, nil,
+					map[string]interface{}{"events": len(h), "unrecorded_empty_polls": polls, "threshold_after_polling": budget, "refill_midway": split}})
+			}
+		}
+	}
+	w.Notes["idle_polling_unrecorded_empty_polls"] = totalPolls
+	w.Notes["idle_polling_threshold_before_the_rounds"] = budgets
 	w.Notes["near_empty_rounds_where_the_enqueuer_did_not_park"] = notParked
 	w.Notes["near_empty_empty_answers_under_token_discipline"] = wrongEmpties
 
